@@ -5,14 +5,26 @@ Open Scope list_scope.
 Open Scope Z_scope.
 
 (* obs per step: which probed keys are readable just before the event (after lazy expiry) and after it *)
-Inductive case := CTags (reg : registry) (keys : list key) (h : list (Z * tev)) (o : list (list bool * list bool)).
+(* one call of the facade: a single model event, or delete_tags with several tags = the single-tag steps one after the other *)
+Inductive rev := One (e : tev) | ManyTags (ts : list string).
+Inductive case := CTags (reg : registry) (keys : list key) (h : list (Z * rev)) (o : list (list bool * list bool)).
 
-Fixpoint run_tags (reg : registry) (keys : list key) (m : tmap) (h : list (Z * tev)) : list (list bool * list bool) :=
+Definition rstep (reg : registry) (keys : list key) (m : tmap) (now : Z) (e : rev) : tmap :=
+  match e with
+  | One e => tag_step reg keys m now e
+  | ManyTags ts => fold_left (fun m' t => tag_step reg keys m' now (TDeleteTags t)) ts (purge reg keys m now)
+  end.
+Definition lift (h : list (Z * tev)) : list (Z * rev) := map (fun te => (fst te, One (snd te))) h.
+(* the same history with every multi-tag call spelled out *)
+Definition expand (h : list (Z * rev)) : list (Z * tev) :=
+  flat_map (fun te => match snd te with One e => [(fst te, e)] | ManyTags ts => map (fun t => (fst te, TDeleteTags t)) ts end) h.
+
+Fixpoint run_tags (reg : registry) (keys : list key) (m : tmap) (h : list (Z * rev)) : list (list bool * list bool) :=
   match h with
   | [] => []
   | (t, e) :: r =>
       let before := readable keys (purge reg keys m t) t in
-      let m' := tag_step reg keys m t e in
+      let m' := rstep reg keys m t e in
       (before, readable keys m' t) :: run_tags reg keys m' r
   end.
 
@@ -25,24 +37,29 @@ Definition info_set (i : list kinfo) (k : key) (v : list string * list string) :
   (k, v) :: filter (fun e => negb (String.eqb (fst e) k)) i.
 Definition bl_eqb := list_eqb Bool.eqb.
 
-Fixpoint ok_tags (keys : list key) (i : list kinfo) (h : list (Z * tev)) (o : list (list bool * list bool)) : bool :=
+Definition deleted_tags (e : rev) : option (list string) :=
+  match e with One (TDeleteTags t) => Some [t] | ManyTags ts => Some ts | _ => None end.
+Fixpoint ok_tags (keys : list key) (i : list kinfo) (h : list (Z * rev)) (o : list (list bool * list bool)) : bool :=
   match h, o with
   | [], [] => true
   | (_, e) :: h', (before, after) :: o' =>
       (* a key that is not readable any more has lost its latest write *)
       let i := fold_left (fun i kb => if (snd kb : bool) then i else info_set i (fst kb) ([], snd (info_get i (fst kb)))) (combine keys before) i in
-      match e with
-      | TSet k _ _ tags | TIncr k _ tags =>
-          ok_tags keys (info_set i k (tags, tags ++ snd (info_get i k))) h' o'
-      | TDel k => ok_tags keys (info_set i k ([], [])) h' o'
-      | TDelPrefix p => ok_tags keys (fold_left (fun i k => match drop_prefix p k with Some _ => info_set i k ([], []) | None => i end) keys i) h' o'
-      | TDeleteTags t =>
+      match deleted_tags e with
+      | Some ts =>
           forallb (fun kba => let '(k, (b, a)) := kba in
                      let '(latest, since) := info_get i k in
-                     (if mems t latest then negb a else true) &&          (* complete *)
-                     (if mems t since then true else Bool.eqb a b))       (* precise *)
+                     (if existsb (fun t => mems t latest) ts then negb a else true) &&          (* complete *)
+                     (if existsb (fun t => mems t since) ts then true else Bool.eqb a b))       (* precise *)
                   (combine keys (combine before after)) &&
           ok_tags keys (fold_left (fun i ka => if (snd ka : bool) then i else info_set i (fst ka) ([], snd (info_get i (fst ka)))) (combine keys after) i) h' o'
+      | None =>
+          match e with
+          | One (TSet k _ _ tags) | One (TIncr k _ tags) => ok_tags keys (info_set i k (tags, tags ++ snd (info_get i k))) h' o'
+          | One (TDel k) => ok_tags keys (info_set i k ([], [])) h' o'
+          | One (TDelPrefix p) => ok_tags keys (fold_left (fun i k => match drop_prefix p k with Some _ => info_set i k ([], []) | None => i end) keys i) h' o'
+          | _ => ok_tags keys i h' o'
+          end
       end
   | _, _ => false
   end.
@@ -84,6 +101,6 @@ Definition judge (c : case) : verdict :=
   match c with
   | CTags reg keys h o =>
       (list_eqb pair_eqb (run_tags reg keys empty h) o, ok_tags keys [] h o,
-       (if excl_f20 reg keys empty h then [20%nat] else []) ++ (if excl_f21 reg keys [] h then [21%nat] else []))
+       (if excl_f20 reg keys empty (expand h) then [20%nat] else []) ++ (if excl_f21 reg keys [] (expand h) then [21%nat] else []))
   end.
 Definition explain (c : case) := match c with CTags reg keys h _ => run_tags reg keys empty h end.
